@@ -678,16 +678,21 @@ def gen_instance(rng, comps, names, style):
                     specific[a][c] = 0
     rk = rng.choice(style.get("routes", ["default1", "default_k", "specific", "specific"]))
     default_route = 1 if rk == "default1" else rng.choice([0, 2, 5])
-    pair_route = {}
-    if rk == "specific":
+    pair_route, back_route = {}, {}
+    if rk in ("specific", "asym"):
         for a, b in itertools.combinations(sorted(names), 2):
             if rng.random() < 0.8:
                 pair_route[(a, b)] = rng.choice([0, 1, 3, 7])
+                if rk == "asym":
+                    # the route of b to a differs from the route of a to b (only possible through the AgentDef API: the
+                    # yaml loader builds symmetric routes); the methods' own cost model keeps the two directions apart
+                    back_route[(a, b)] = rng.choice([0, 2, 5, 9])
     loads = {}
     for a, b in itertools.combinations(sorted(comps), 2):
         loads[(a, b)] = rng.choice(style.get("loads", [1, 1, 2, 3, 0]))
     inst.update(fp=fp, cap=cap, hosting_kind=hk, default_hosting=default, hosting=specific, default_route=default_route,
                 routes={"%s-%s" % k: v for k, v in pair_route.items()}, capkind=capkind,
+                routes_back={"%s-%s" % k: v for k, v in back_route.items()},
                 loads={"%s-%s" % k: v for k, v in loads.items()})
     return inst
 
@@ -702,7 +707,7 @@ def agents_of(inst, names):
             if x == a:
                 routes[y] = v
             elif y == a:
-                routes[x] = v
+                routes[x] = inst.get("routes_back", {}).get(k, v)
         kw = dict(capacity=inst["cap"][a], default_route=inst["default_route"], routes=routes)
         if inst["hosting_kind"] != "default0":
             kw["default_hosting_cost"] = inst["default_hosting"][a]
@@ -886,6 +891,7 @@ _STYLES = {
     "pos": dict(hosting=["default_pos", "specific_pos"]),
     "zero": dict(hosting=["some_zero"]),
     "room": dict(cap=["ample", "mixed"], hosting=["specific_pos", "some_zero"]),
+    "asym": dict(cap=["ample", "tight", "mixed"], hosting=["default_pos", "specific_pos"], routes=["asym"], loads=[1, 2, 3]),
 }
 
 
@@ -914,6 +920,8 @@ def _shapes_ilp(tier, prop="C23"):
         add("oilp_cgdp", "dup", HG, 2, 6, "pos")
         add("oilp_cgdp", "iso", HG, 3, 6, "any")
         add("oilp_cgdp", "single", HG, 1, 3, "any")
+        add("oilp_cgdp", "pair", HG, 2, 8, "asym")
+        add("oilp_cgdp", "chain3", HG, 3, 8, "asym")
         add("oilp_cgdp", "pair", HG, 2, 1, "zero", special="pinned-on-second-agent")
         add("oilp_cgdp", "chain3", PT, 3, 1, "pos", special="doubled-links")
         add("ilp_fgdp", "pair", FG, 2, 10, "pos")
@@ -974,7 +982,7 @@ Contract(
     trusted=["MILP solver: GLPK_CMD (glpsol not installed) rebound in the module under check to PuLP's bundled CBC; "
              "the solver is assumed to return an optimal 0/1 point of the model it is given, or 'infeasible'"],
     assumptions=["ILP methods: numeric instances are drawn by a seeded generator from small grids (footprints 0-3, tight/ample/short "
-                 "capacities, hosting costs incl. default 0 and explicit zeros, symmetric routes 0-7, loads 0-3), not all reals",
+                 "capacities, hosting costs incl. default 0 and explicit zeros, routes 0-9 (symmetric; asymmetric per direction in the 'asym' families), loads 0-3), not all reals",
                  "communication loads symmetric (as maxsum's); ilp_fgdp only on factor graphs (its documented domain)",
                  "C24 oracle: brute-force enumeration of all agent^computation mappings under the method's own hard rules and distribution_cost",
                  "second call on the same inputs (frame): every third instance of a shape and the special instances (a second MILP solve)"],
